@@ -272,7 +272,10 @@ def zero_weight_sum(mesh, q):
     mu = metrics_by_id(mesh)
     if any(mu[e] is None for e in eids):
         return False
-    return any(t and sum(mu[e] for e in t) == 0 for t in pattern(mesh, q, eids))
+    # also NEARLY cancelling sums (the cells are equal only up to the rounding of the scaled
+    # coordinates): the quotient is then ill-conditioned and no tolerance is meaningful
+    return any(t and 8 * abs(sum(mu[e] for e in t)) < sum(abs(mu[e]) for e in t)
+               for t in pattern(mesh, q, eids))
 
 
 def oracle(mesh, q, r):
